@@ -322,7 +322,8 @@ func (e *c06Env) benign(v starlark.Value) error {
 			return err
 		}
 		m, _ := v.Attr("pop")
-		_, err := starlark.Call(e.th, m, nil, nil)
+		// (on a thread of its own: this probes the collection, not the cancellation state of the scenario's thread)
+		_, err := starlark.Call(&starlark.Thread{Name: "c06-benign"}, m, nil, nil)
 		return err
 	case *starlark.Dict:
 		if err := v.SetKey(np, starlark.None); err != nil {
@@ -689,6 +690,14 @@ func c06Run(tr *c06Tracer, sc c06Scenario, kind, conc string, limit uint64) (res
 		e.at = 1 // any() stops at the first true element: its early return is the exit path
 	}
 	res = c06Result{Sc: sc, Kind: kind, Conc: conc, Limit: limit}
+	// a panic of the code under test outside the scripted panic exit (e.g. while the thread is reused after the call)
+	// is an observation of this scenario, not a failure of the harness
+	defer func() {
+		if p := recover(); p != nil {
+			res.Attempts = e.results
+			res.Problems = append(e.problems, fmt.Sprintf("after the call: the host panics while the values / the thread are used again: %v", p))
+		}
+	}()
 	e.th = &starlark.Thread{Name: "c06"}
 	for i := 1; i <= 3; i++ {
 		e.probes = append(e.probes, &probe{id: i, env: e})
@@ -784,6 +793,12 @@ func c06Run(tr *c06Tracer, sc c06Scenario, kind, conc string, limit uint64) (res
 		if !frozen && err != nil {
 			e.problems = append(e.problems, fmt.Sprintf("%s cannot be mutated after the call returned: %v", name, err))
 		}
+	}
+	// a call attempted on the thread as the run left it (possibly still cancelled) may fail with the cancellation
+	// error, but it must leave the call stack where it was
+	starlark.Call(e.th, e.helpers["ident"], starlark.Tuple{starlark.MakeInt(1)}, nil)
+	if d := e.th.CallStackDepth(); d != depth0 {
+		e.problems = append(e.problems, fmt.Sprintf("call stack depth %d after a further call on the thread, %d before the run", d, depth0))
 	}
 	// the thread remains usable (cancellation persists by design until Uncancel)
 	e.th.Uncancel()
